@@ -114,7 +114,7 @@ func Dot(spec *Spec, w io.WriteCloser, fromNode, toNode string) error {
 			style += ",dashed"
 		}
 		fmt.Fprintf(w, "  %s [shape=\"%s\", style=\"%s\", color=\"%s\", fillcolor=\"%s\", label=<%s> ]\n",
-			name, shape, style, color, fillcolor, label)
+			dotID(name), shape, style, color, fillcolor, label)
 
 		return nil
 	}
@@ -194,7 +194,7 @@ func Dot(spec *Spec, w io.WriteCloser, fromNode, toNode string) error {
 			// label = fmt.Sprintf("[%d/%d] %s", i+1, len(n.Branches.Branches), label)
 			label = fmt.Sprintf("%d/%d %s", i+1, len(n.Branches.Branches), label)
 			fmt.Fprintf(w, "  %s -> %s [ color=\"%s\" label = <%s> ]\n",
-				name, b.Target, color, label)
+				dotID(name), dotID(b.Target), color, label)
 		}
 
 		return nil
@@ -214,6 +214,12 @@ func Dot(spec *Spec, w io.WriteCloser, fromNode, toNode string) error {
 
 	fmt.Fprintf(w, "}\n")
 	return w.Close()
+}
+
+// dotID writes a node name as a quoted Graphviz identifier, so that
+// names like "test-1", "@from", "node", or "" are identifiers, too.
+func dotID(name string) string {
+	return `"` + strings.NewReplacer(`\`, `\\`, `"`, `\"`).Replace(name) + `"`
 }
 
 // PNG generates a PNG image based on output from Dot.
